@@ -24,8 +24,9 @@ import (
 )
 
 var (
-	run   *vlib.Run
-	evals atomic.Int64
+	run    *vlib.Run
+	evals  atomic.Int64
+	canary *rig.Canary
 )
 
 func scenarios() []scenario {
@@ -100,6 +101,7 @@ func scenarios() []scenario {
 
 func main() {
 	run = vlib.Start("C17", "exploration")
+	canary = rig.StartCanary()
 	var scs []scenario
 	var prs []probe
 	redirects := true
@@ -161,6 +163,7 @@ func main() {
 		}(sc)
 	}
 	wg.Wait()
+	run.Extra("worst_scheduler_lateness_ms", canary.Worst().Milliseconds())
 	run.ReportRaces()
 	run.Assume("a reader's SETUP (roll-over counter snapshot in MIKEY) and the first packet it receives lie on the same side of a sequence-number wrap: writers hold back the ~96 packets before a wrap while a reader joins (RFC 3711 / MIKEY signal the ROC once; a receiver cannot synchronise otherwise)")
 	run.Assume("UDP: in-order subsequence; every receiver must still receive sentinel packets after the load (a receiver whose SRTP context lost synchronisation would not); tamper scenarios on UDP require the packets directly after an altered one to arrive (<= 10% missing) and at least half of the untampered packets overall; on TCP every untampered packet")
